@@ -25,8 +25,10 @@ Vocabulary
 
 Clauses (first failing one is reported, deterministic order)
   snapshot-unreadable            an existing snapshot does not decompress/open
-  snapshot-deleted-outside-prune a snapshot vanished although no prune of its
-                                 kind had started
+  snapshot-deleted-outside-prune a snapshot that existed before the run
+                                 vanished although no prune of its kind had
+                                 started (a snapshot created and removed again
+                                 by the same pass is judged by losslessness)
   prune-kept-wrong-snapshots     a prune deleted a snapshot outside `allowed`,
                                  or completed without deleting all of `allowed`
   scheduled-instance-archived    event of an instance in /scheduled not live
@@ -186,6 +188,7 @@ class ArchiveState:
         self.exempt = set()
         self.allowed = {kind: set() for kind in KINDS}
         self.accounted = {kind: set() for kind in KINDS}
+        self.at_prune_start = {kind: set() for kind in KINDS}
         self.prune_started = {kind: False for kind in KINDS}
         self.prune_done = {kind: False for kind in KINDS}
         self.t_begin = {}
@@ -212,6 +215,7 @@ class ArchiveState:
         names = sorted(snaps, key=lambda n: (seqno(n), n))
         extra = len(names) - self.max_count(kind)
         self.prune_started[kind] = True
+        self.at_prune_start[kind] = set(names)
         if extra <= 0:
             return
         for name in names[:extra]:
@@ -254,7 +258,8 @@ def evaluate(st, zk, api, now):
     mode = 'complete' if st.outcome in (None, 'complete') else 'crash'
     stats = {'archived': 0, 'kept_young': 0, 'kept_scheduled': 0,
              'both_live_and_archived': 0, 'pruned': 0, 'created': 0,
-             'finished_archived': 0, 'server_archived': 0, 'exempt': 0}
+             'finished_archived': 0, 'server_archived': 0, 'exempt': 0,
+             'rolled_back': 0}
 
     # -- snapshots: readable; only pruning removes them, by the rule
     contents = {}
@@ -284,12 +289,22 @@ def evaluate(st, zk, api, now):
         known = st.snaps_start[kind] | created
         missing = known - set(snaps)
         stats['pruned'] += len(missing)
-        bad = sorted(missing - st.allowed[kind])
+        # A snapshot made by this very pass and removed again before any
+        # prune of its kind looked at the directory (an upload rolled back by
+        # the archiver) is not by itself forbidden by the statement: whether
+        # something was lost with it is decided by the losslessness clauses
+        # below.  Snapshots that existed beforehand, or that a prune found,
+        # may only go by the keep-newest rule.
+        bad = sorted(name for name in missing - st.allowed[kind]
+                     if name in st.snaps_start[kind] or
+                     name in st.at_prune_start[kind])
+        stats['rolled_back'] += len(missing - st.allowed[kind]) - len(bad)
         if bad:
             if not st.prune_started[kind]:
                 return _viol('C18:snapshot-deleted-outside-prune',
-                             '%s: %s deleted, no history prune of that kind '
-                             'had started' % (HIST[kind], bad)), stats
+                             '%s: %s existed before the archiving run and '
+                             'were deleted although no history prune of that '
+                             'kind had started' % (HIST[kind], bad)), stats
             return _viol('C18:prune-kept-wrong-snapshots',
                          '%s: deleted %s; max_count=%d, present when the '
                          'prune started: may delete only %s' % (
